@@ -14,7 +14,7 @@ NOT_APPLICABLE = {}
 
 _GRAMMAR = "generated type expressions of the property's grammar (10 scalar kinds, String, Struct, Array 1-3 dims static/dynamic any axis order, Ref, UnionRef; <=8 nodes depth<=4 quick, <=16 nodes depth<=5 thorough) x generated in-range values x input forms x placements (context, buffer kind, capacity, alignment, grow step, allocate/free pre-history on poisoned memory, offset mode)"
 CHECKS["C01"] = {
-  "text": "Exploration: " + _GRAMMAR + "; every field/item/reference is read back through the public API and compared bit-exactly with the model value; to_nplike/to_nparray of every scalar array compared too. 16 workers x 600 (quick) / 8000 (thorough) cases + corpus of fixed defects. Finite search, not a proof. Plus the exhaustive array layer: every array type with 1-3 axes of extent 1..3 or dynamic, every axis order, items in {Int8, Float64, String, dynamic struct, static struct}, two input forms (4200 cases quick, 6570 thorough with a second runtime-extent assignment incl. a zero extent).",
+  "text": "Exploration: " + _GRAMMAR + "; every field/item/reference is read back through the public API and compared bit-exactly with the model value; to_nplike/to_nparray of every scalar array compared too. 16 workers x 1200 (quick) / 10000 (thorough) cases + corpus of fixed defects. Finite search, not a proof. Plus the exhaustive array layer: every array type with 1-3 axes of extent 1..3 or dynamic, every axis order, items in {Int8, Float64, String, dynamic struct, static struct}, two input forms (4200 cases quick, 6570 thorough with a second runtime-extent assignment incl. a zero extent).",
   "note": "In-range values, NUL-free strings, xobject inputs of the very class object; one buffer kind per context. Bounds on size/depth are search bounds only.",
   "technique": "property-based testing: generated types/values/input forms/placements, round-trip oracle against a model value",
 }
@@ -74,7 +74,7 @@ CHECKS["C19"] = {
   "technique": "property-based round-trip testing over generated class definitions, types and values",
 }
 CHECKS["C20"] = {
-  "text": "Exploration: groups of 1-4 objects of generated importable types (Struct roots of the full grammar, named Array roots, generated HybridClass objects) in 1-2 buffers of either CPU kind with a non-trivial free list, pickled together (protocols 2-5) and unpickled in-process and, for ~1/20 of the cases, in a fresh interpreter importing a generated module file. Oracle: equal at every field (handles and dressed attributes), _size restored, two-way write independence, buffer sharing structure preserved and no original buffer reused, capacity/get_free preserved, the unpickled buffer allocates at the same offsets as the original, a newly constructed object overlaps nothing. 16 workers x 300 / 5000 groups.",
+  "text": "Exploration: groups of 1-4 objects of generated importable types (Struct roots of the full grammar, named Array roots, generated HybridClass objects) in 1-2 buffers of either CPU kind with a non-trivial free list, pickled together (protocols 2-5) and unpickled in-process and, for ~1/20 of the cases, in a fresh interpreter importing a generated module file. Oracle: equal at every field (handles and dressed attributes), _size restored, two-way write independence, buffer sharing structure preserved and no original buffer reused, capacity/get_free preserved, the unpickled buffer allocates at the same offsets as the original, a newly constructed object overlaps nothing. 16 workers x 300 / 3000 groups.",
   "note": "CPU contexts; classes importable through a synthetic module or a generated module file; fitting writes.",
   "technique": "property-based round-trip testing (pickle) with a value model and an allocator differential (original vs unpickled buffer)",
 }
